@@ -1,30 +1,50 @@
 /-
-Source tie (DESIGN §14) for `render()`: the Lean functions regenerated from the text of `TagList.render` and `Tag.render`
+Source tie (DESIGN §14) for `render()`, the string views and `head_content` (harness/pytr_c18.py).
 
-    cp = self.tagify(); deps = cp.get_dependencies(); return {"dependencies": deps, "html": cp.get_html_string()}
+1. `TagList.render` / `Tag.render`
 
-compute, for every tree, the dict whose two entries are what the model reports: the resolved dependency list and the
-markup of the expanded tree (`renderOfList` / `renderOfTag`, Model/Tagify.lean — the definitions `C09_render` is about).
-Obligations of C09.
+       cp = self.tagify(); deps = cp.get_dependencies(); return {"dependencies": deps, "html": cp.get_html_string()}
 
-The three callees are tied to the model in Props/SrcC09.lean (`tagify`, embedding `embT tv`), Props/SrcC10.lean
-(`get_dependencies`, `embT tv`) and Props/SrcRender.lean (`get_html_string`, embedding `embNode`).  The embeddings
-differ, and `render()` hands the *same* objects to all three.  So the three ties are re-established here for one
-family of embeddings that carries every field any of them reads — `embC18 xf tv` (Lemmas/SrcC18.lean; `xf` = further
-fields of the dependency objects, used by the string views) — by the same per-pass arguments as in those files
-(`*_step_C18`, `*_depth_C18`; no loop body is spelled out: the loops are obtained from the regenerated definitions by
-unification through the loop lemmas restated for an arbitrary embedding).  With `xf = xfNilC18` the embedding is `embT tv`,
-so `src_tagify_*` and `src_get_dependencies_*` are instances of the theorems below, and `src_render_*` is transported
-from `embNode` to the embedding that carries all fields.
+   compute, for every tree, the dict whose two entries are what the model reports: the resolved dependency list and the
+   markup of the expanded tree (`renderOfList` / `renderOfTag`, Model/Tagify.lean — the definitions `C09_render` is about):
+   `src_TagList_render`, `src_Tag_render`, `src_TagList_render_spec`.  Obligations of C09.
+
+   The three callees are tied to the model in Props/SrcC09.lean (`tagify`, embedding `embT tv`), Props/SrcC10.lean
+   (`get_dependencies`, `embT tv`) and Props/SrcRender.lean (`get_html_string`, embedding `embNode`).  The embeddings
+   differ, and `render()` hands the *same* objects to all three.  So the three ties are re-established here for one
+   family of embeddings that carries every field any of them reads — `embC18 xf tv` (Lemmas/SrcC18.lean; `xf` = further
+   fields of the dependency objects, used by the string views) — by the same per-pass arguments as in those files
+   (`*_step_C18`, `*_depth_C18`; no loop body is spelled out: the loops are obtained from the regenerated definitions by
+   unification through the loop lemmas restated for an arbitrary embedding).  With `xf = xfNilC18` the embedding is
+   `embT tv` (`embC18_nil`), so `src_tagify_*` and `src_get_dependencies_*` are instances of the theorems below, and
+   `src_render_*` is transported from `embNode` to the embedding that carries all fields.  The two models of
+   `_resolve_dependencies` (`resolve`, Model/Deps.lean; `Tagify.resolveDeps`, Model/Tagify.lean) are proved equal
+   (`resolve_entries_C18`).
+
+2. `_render_tag_or_taglist`, `Tag.__str__`, `TagList.__str__` = `strOfRendered` / `strView` / `strViewList`
+   (Model/ReadOps.lean — the definitions `C08_views` is about), in both values of `html_dependency_render_mode`
+   (`Globals.renderModeC18`): `src_render_tag_or_taglist_gen/_list/_tag`, `src_Tag_str`, `src_TagList_str`.  Obligations of
+   C08.  `serialize_to_script_json` is not translated: each dependency object records the `<script>` Tag the model says
+   the method returns (`xfSerC18`; primitive `pySerializeToScriptJsonC18`).
+
+3. `hash_deterministic` (SHA-1 is the parameter `H`: `Globals.sha1HexC18`) and `head_content` = `headContent`
+   (Model/HeadContent.lean) on the child list `TagList(*args)` builds: `src_hash_deterministic`, `src_head_content`
+   (through `src_TagList_init` of Props/SrcC14.lean, `src_render_list` of Props/SrcRender.lean — transported to the
+   module constants of this area by `get_html_string_globalsHeadC18` — and `src_init` of Props/SrcC10b.lean).
+   Obligations of C18.
 
 The module constants are `globalsC18 cfg mode sha` — `globalsOf cfg` with `html_dependency_render_mode` and the SHA-1
-digest as parameters; the renderer does not see them (`normalize_text_globalsC18`, by `rfl`).
+digest as parameters; the text functions do not see them (`normalize_text_globalsC18`, by `rfl`).
 -/
 import HtmlVerif.Generated.Src
 import HtmlVerif.Lemmas.SrcC18
 import HtmlVerif.Props.SrcC10
 import HtmlVerif.Props.SrcRender
 import HtmlVerif.Model.ReadOps
+import HtmlVerif.Model.HeadContent
+import HtmlVerif.Props.SrcC14
+import HtmlVerif.Props.SrcC10b
+import HtmlVerif.Props.C14
 
 set_option linter.unusedVariables false
 set_option linter.unusedSimpArgs false
@@ -796,13 +816,165 @@ theorem src_TagList_str_now (h0 : TagList_str_available = true)
 
 /-- `hash_deterministic(s)`: `hashlib.sha1(s.encode("utf-8")).hexdigest()` is the digest function `H` the interpreter
     supplies (a parameter of the model, `headContent … H …`; the driver runs the executable `Model/Sha1.lean`) -/
-theorem src_hash_deterministic (h : hash_deterministic_available = true) (cfg : Cfg) (m : PVal) (H : Str → Str) (s : Str) :
-    hash_deterministic (globalsC18 cfg m (fun x => some (H x))) (.str s) = .ok (.str (H s)) := by
+theorem src_hash_deterministic (h : hash_deterministic_available = true) (G : Globals) (H : Str → Str)
+    (hG : G.sha1HexC18 = fun x => some (H x)) (s : Str) :
+    hash_deterministic G (.str s) = .ok (.str (H s)) := by
   first
   | exact absurd h (by decide)
   | skip
   all_goals (
     unfold hash_deterministic
-    simp [pySha1HexC18, globalsC18_sha])
+    simp [pySha1HexC18, hG])
+
+/-! ## `head_content` -/
+
+/-- the module constants of `head_content`: additionally what `packaging` answers for a version string -/
+def globalsHeadC18 (cfg : Cfg) (mode : PVal) (sha : Str → Option Str) (mkv : Str → Option PVal) : Globals :=
+  { globalsC18 cfg mode sha with mkVersion := mkv }
+
+theorem pyAdd_globalsHeadC18 (cfg : Cfg) (m : PVal) (sha : Str → Option Str) (mkv : Str → Option PVal) :
+    pyAdd (globalsHeadC18 cfg m sha mkv) = pyAdd (globalsOf cfg) := rfl
+theorem html_escape_globalsHeadC18 (cfg : Cfg) (m : PVal) (sha : Str → Option Str) (mkv : Str → Option PVal) :
+    html_escape (globalsHeadC18 cfg m sha mkv) = html_escape (globalsOf cfg) := rfl
+theorem normalize_text_globalsHeadC18 (cfg : Cfg) (m : PVal) (sha : Str → Option Str) (mkv : Str → Option PVal) :
+    normalize_text (globalsHeadC18 cfg m sha mkv) = normalize_text (globalsOf cfg) := rfl
+theorem globalsHeadC18_void (cfg : Cfg) (m : PVal) (sha : Str → Option Str) (mkv : Str → Option PVal) :
+    (globalsHeadC18 cfg m sha mkv).VOID_TAG_NAMES = (globalsOf cfg).VOID_TAG_NAMES := rfl
+theorem globalsHeadC18_noesc (cfg : Cfg) (m : PVal) (sha : Str → Option Str) (mkv : Str → Option PVal) :
+    (globalsHeadC18 cfg m sha mkv).NO_ESCAPE_TAG_NAMES = (globalsOf cfg).NO_ESCAPE_TAG_NAMES := rfl
+
+/-- the renderer reads the tables only: with the further parameters of this area it is the same function (by induction
+    on the fuel; the bodies are never looked at — both sides are unfolded once and the recursive calls rewritten) -/
+theorem get_html_string_globalsHeadC18 (h1 : Tag_get_html_string_available = true)
+    (h2 : TagList_get_html_string_available = true) (cfg : Cfg) (m : PVal) (sha : Str → Option Str)
+    (mkv : Str → Option PVal) (fuel : Nat) :
+    Tag_get_html_string (globalsHeadC18 cfg m sha mkv) fuel = Tag_get_html_string (globalsOf cfg) fuel
+    ∧ TagList_get_html_string (globalsHeadC18 cfg m sha mkv) fuel = TagList_get_html_string (globalsOf cfg) fuel := by
+  first
+  | exact absurd h1 (by decide)
+  | exact absurd h2 (by decide)
+  | skip
+  all_goals (
+    induction fuel with
+    | zero =>
+      constructor
+      · funext v i e; rw [Tag_get_html_string, Tag_get_html_string]
+      · funext v i e a b; rw [TagList_get_html_string, TagList_get_html_string]
+    | succ n ih =>
+      constructor
+      · funext v i e
+        rw [Tag_get_html_string, Tag_get_html_string]
+        simp only [ih.1, ih.2, pyAdd_globalsHeadC18, html_escape_globalsHeadC18, normalize_text_globalsHeadC18,
+          globalsHeadC18_void, globalsHeadC18_noesc]
+      · funext v i e a b
+        rw [TagList_get_html_string, TagList_get_html_string]
+        simp only [ih.1, ih.2, pyAdd_globalsHeadC18, html_escape_globalsHeadC18, normalize_text_globalsHeadC18,
+          globalsHeadC18_void, globalsHeadC18_noesc])
+
+/-- the stored elements of a normalised child list are the embedded nodes -/
+theorem embStored_nodes_C18 (s : TL) (h : Inv s) : s.map embStored = s.nodes.map embNode := by
+  induction s with
+  | nil => rfl
+  | cons x r ih =>
+    have hx := h x (by simp)
+    have ih' := ih (fun y hy => h y (by simp [hy]))
+    cases x with
+    | node n => simp [TL.nodes, embStored, Stored.toArg, embA, ih']
+    | raw a => simp [Stored.isNode] at hx
+
+theorem embNodes_ofList_C18 (l : List Node) : embNodes (Nodes.ofList l) = l.map embNode := by
+  induction l with
+  | nil => rfl
+  | cons a t ih => simp [Nodes.ofList, embNodes, ih]
+
+theorem headItem_embNode_C18 (n : Node) : headItemC10b (embNode n) = .ok [embNode n] ∧ isNestedSeqC10b (embNode n) = false := by
+  cases n with
+  | tobjL rh c => cases rh <;> simp [embNode, headItemC10b, isNestedSeqC10b, isInstance, classBases]
+  | tobj1 rh c => cases rh <;> simp [embNode, headItemC10b, isNestedSeqC10b, isInstance, classBases]
+  | _ => simp [embNode, headItemC10b, isNestedSeqC10b, isInstance, classBases]
+
+theorem headItems_embNode_C18 (l : List Node) : headItemsC10b (l.map embNode) = .ok (l.map embNode) := by
+  induction l with
+  | nil => rfl
+  | cons a t ih => simp [headItemsC10b, (headItem_embNode_C18 a).1, ih]
+
+/-- `TagList(head)` for a `head` that already is a TagList of normalised nodes: a new TagList with the same items -/
+theorem pyTagList1_nodes_C18 (l : List Node) :
+    pyTagList1 (.obj "TagList" [("data", .list (l.map embNode))]) = .ok (tagListObjC10b (l.map embNode)) := by
+  have hn : (l.map embNode).any isNestedSeqC10b = false := by
+    simp [List.any_eq_false, (headItem_embNode_C18 _).2]
+  simp [pyTagList1, fieldGet?, headSeqC10b, hn, headItems_embNode_C18]
+
+/-- the dependency `head_content` returns, as the instance `HTMLDependency.__init__` builds (Lemmas/SrcC10b.lean) -/
+def embHeadDepC18 : Node → PVal
+  | .dep d _ hd => embDepObjC10b "HTMLDependency" PVal.none d (tagListObjC10b (embNodes hd))
+  | _ => PVal.none
+
+/-- **`head_content(*args)`** as the source has it = `headContent` (Model/HeadContent.lean) on the child list
+    `TagList(*args)` builds (`TL.init`, Model/Children.lean; TypeError for an argument that is no tag child): the name is
+    "headcontent_" + the digest `H` of the rendered list, the version "0.0", the head the list itself; RuntimeError when
+    the list holds an un-expanded tagifiable object that does not render itself.  `H` and the rank `packaging` gives
+    version 0.0 are parameters.  (Attributes compared through `projDepC10b`: the assignment order of `__init__` is not
+    part of the statement, as in Props/SrcC10b.lean.) -/
+theorem src_head_content (h : head_content_available = true) (hh : hash_deterministic_available = true)
+    (hi : TagList_init_available = true) (hc : tagchilds_to_tagnodes_available = true)
+    (hf' : util_flatten_available = true) (hr' : util_flatten_recurse_available = true) (hnn : is_tag_node_available = true)
+    (hg1 : Tag_get_html_string_available = true) (hg2 : TagList_get_html_string_available = true)
+    (hn : normalize_text_available = true) (he : html_escape_available = true) (hs : HTML_as_string_available = true)
+    (hd0 : HTMLDependency_init_available = true) (hd1 : HTMLDependency_validate_dicts_available = true)
+    (hd2 : HTMLDependency_validate_dict_available = true)
+    (cfg : Cfg) (ht : keysPlain cfg.textTbl = true) (ha : keysPlain cfg.attrTbl = true)
+    (m : PVal) (H : Str → Str) (vrank0 : Nat) (mkv : Str → Option PVal)
+    (hmk : mkv ['0', '.', '0'] = some (versionObjC10b vrank0 ['0', '.', '0']))
+    (args : List Arg) (hr : args.all argRep = true) (fuel : Nat)
+    (hf1 : argsFdepth (Args.ofList args) + 4 < fuel)
+    (hf2 : ∀ s, TL.init args = .ok s → 2 * kidsDepth (Nodes.ofList s.nodes) + 2 ≤ fuel) :
+    projDepC10b <$> head_content (globalsHeadC18 cfg m (fun x => some (H x)) mkv) fuel (.tuple (args.map embA))
+      = match TL.init args with
+        | .error e => .error (embErr e)
+        | .ok s => embRes embHeadDepC18 (headContent cfg H vrank0 (Nodes.ofList s.nodes)) := by
+  first
+  | exact absurd h (by decide)
+  | skip
+  all_goals (
+    obtain ⟨f, rfl⟩ : ∃ f, fuel = f + 1 := ⟨fuel - 1, by omega⟩
+    rw [head_content]
+    have e1 := src_TagList_init hi hc hf' hr' hnn (globalsHeadC18 cfg m (fun x => some (H x)) mkv) args hr f (by omega)
+    simp only [pyIter_tuple, ok_bind, pure_eq_ok, e1]
+    cases hinit : TL.init args with
+    | error e => simp [embRes]
+    | ok s =>
+      have hinv : Inv s := (C14.C14_new_lists_inv [] s).1 args hinit
+      have hdata : embTL s = .obj "TagList" [("data", .list (embNodes (Nodes.ofList s.nodes)))] := by
+        simp [embTL, embStored_nodes_C18 s hinv, embNodes_ofList_C18]
+      have hcls : pyClassOf (embTL s) = "TagList" := rfl
+      have e2 : TagList_get_html_string (globalsHeadC18 cfg m (fun x => some (H x)) mkv) f (embTL s) (PVal.int 0)
+          (PVal.str [Char.ofNat 10]) (PVal.bool true) (PVal.bool true)
+          = if (Nodes.ofList s.nodes).hasTobjKids then .error .runtimeError
+            else .ok (.str (renderList cfg (Nodes.ofList s.nodes) 0 ['\n'] true true)) := by
+        rw [(get_html_string_globalsHeadC18 hg1 hg2 cfg m _ mkv f).2, hdata]
+        exact src_render_list hg1 hg2 hn he hs cfg ht ha (Nodes.ofList s.nodes) f (by have := hf2 s hinit; omega) 0 ['\n'] true true
+      simp only [embRes, ok_bind, pure_eq_ok, hcls, e2, headContent, renderListChecked]
+      by_cases hk : (Nodes.ofList s.nodes).hasTobjKids = true
+      · simp [hk, embErr]
+      · simp only [hk, Bool.false_eq_true, if_false, ok_bind]
+        have e3 := src_hash_deterministic hh (globalsHeadC18 cfg m (fun x => some (H x)) mkv) H rfl
+          (renderList cfg (Nodes.ofList s.nodes) 0 ['\n'] true true)
+        have hadd : ∀ a b : Str, pyAdd (globalsHeadC18 cfg m (fun x => some (H x)) mkv) (.str a) (.str b) = .ok (.str (a ++ b)) :=
+          fun _ _ => rfl
+        simp only [e3, ok_bind, hadd]
+        let a : DepArgV := { name := headcontentPrefix ++ H (renderList cfg (Nodes.ofList s.nodes) 0 ['\n'] true true),
+                             version := ['0', '.', '0'], verOk := true, vrank := vrank0, source := .none, script := .none,
+                             stylesheet := .none, metas := .none, allFiles := false }
+        have e4 : projDepC10b <$> HTMLDependency_init (globalsHeadC18 cfg m (fun x => some (H x)) mkv) (PVal.obj "HTMLDependency" [])
+            (PVal.str (['h', 'e', 'a', 'd', 'c', 'o', 'n', 't', 'e', 'n', 't', '_'] ++ H (renderList cfg (Nodes.ofList s.nodes) 0 ['\n'] true true)))
+            (PVal.str ['0', '.', '0']) PVal.none PVal.none PVal.none (PVal.bool false) PVal.none (embTL s) = _ :=
+          src_init hd0 hd1 hd2 (globalsHeadC18 cfg m (fun x => some (H x)) mkv) "HTMLDependency" a (.str ['0', '.', '0'])
+            (Or.inl ⟨_, rfl, hmk⟩) (.node (embTL s) rfl rfl)
+        rw [e4]
+        have hres : (HeadV.node (embTL s) rfl rfl).res = .ok (tagListObjC10b (embNodes (Nodes.ofList s.nodes))) := by
+          simp only [HeadV.res, hdata, embNodes_ofList_C18, pyTagList1_nodes_C18]
+        simp [depInit, DepArgV.toArg, ItemsV.toArg, SourceV.toArg, checkSource, normItems, a, hres, embHeadDepC18, SourceV.emb,
+          headcontentPrefix])
 
 end HtmlVerif.SrcTie
